@@ -679,3 +679,16 @@ Section MaxiFast.
     | AGeneric => argmax_generic le m
     end.
 End MaxiFast.
+
+(* ---------- comparisons read from the source (translate/maxi_tables.py -> GenMaxi.v) ---------- *)
+Inductive vcmp := VCmpLe | VCmpLt.       (* _mm_cmple_ps, _CMP_LE_OS | _mm_cmplt_ps, _CMP_LT_OS *)
+Inductive rcmp := RCmpGe | RCmpGt.       (* if score >= best {..} | if score > best {..} *)
+
+Definition vcmp_fn {T : Type} (le lt : T -> T -> bool) (c : vcmp) : T -> T -> bool :=
+  match c with VCmpLe => le | VCmpLt => lt end.
+
+Definition rcmp_pick {T : Type} (le lt : T -> T -> bool) (c : rcmp) (best x : nat * nat * T) : nat * nat * T :=
+  match c with
+  | RCmpGe => if le (snd best) (snd x) then x else best
+  | RCmpGt => if lt (snd best) (snd x) then x else best
+  end.
